@@ -29,6 +29,8 @@ func newPriorityQueue[T any](w *worker[T, iJob[T]], pq IPriorityQueue) *priority
 
 func (q *priorityQueue[T]) Add(data T, priority int, configs ...JobConfigFunc) (EnqueuedJob, bool) {
 	j := newJob(data, loadJobConfigs(q.w.configs(), configs...))
+	// queued before it becomes visible: a fast worker may finish the job before Enqueue returns
+	j.changeStatus(queued)
 
 	if ok := q.internalQueue.Enqueue(j, priority); !ok {
 		j.Close()
@@ -36,7 +38,6 @@ func (q *priorityQueue[T]) Add(data T, priority int, configs ...JobConfigFunc) (
 	}
 
 	q.w.Metrics().incSubmitted()
-	j.changeStatus(queued)
 	q.w.notifyToPullNextJobs()
 
 	return j, true
@@ -47,6 +48,7 @@ func (q *priorityQueue[T]) AddAll(items []Item[T]) EnqueuedGroupJob {
 
 	for _, item := range items {
 		j := groupJob.newJob(item.Data, loadJobConfigs(q.w.configs(), WithJobId(item.ID)))
+		j.changeStatus(queued)
 
 		if ok := q.internalQueue.Enqueue(j, item.Priority); !ok {
 			j.Close()
@@ -54,7 +56,6 @@ func (q *priorityQueue[T]) AddAll(items []Item[T]) EnqueuedGroupJob {
 		}
 
 		q.w.Metrics().incSubmitted()
-		j.changeStatus(queued)
 		q.w.notifyToPullNextJobs()
 	}
 
@@ -89,6 +90,8 @@ func newResultPriorityQueue[T, R any](w *worker[T, iResultJob[T, R]], pq IPriori
 
 func (q *resultPriorityQueue[T, R]) Add(data T, priority int, configs ...JobConfigFunc) (EnqueuedResultJob[R], bool) {
 	j := newResultJob[T, R](data, loadJobConfigs(q.w.configs(), configs...))
+	// queued before it becomes visible: a fast worker may finish the job before Enqueue returns
+	j.changeStatus(queued)
 
 	if ok := q.internalQueue.Enqueue(j, priority); !ok {
 		j.Close()
@@ -96,7 +99,6 @@ func (q *resultPriorityQueue[T, R]) Add(data T, priority int, configs ...JobConf
 	}
 
 	q.w.Metrics().incSubmitted()
-	j.changeStatus(queued)
 	q.w.notifyToPullNextJobs()
 
 	return j, true
@@ -107,6 +109,7 @@ func (q *resultPriorityQueue[T, R]) AddAll(items []Item[T]) EnqueuedResultGroupJ
 
 	for _, item := range items {
 		j := groupJob.newJob(item.Data, loadJobConfigs(q.w.configs(), WithJobId(item.ID)))
+		j.changeStatus(queued)
 
 		if ok := q.internalQueue.Enqueue(j, item.Priority); !ok {
 			j.Close()
@@ -114,7 +117,6 @@ func (q *resultPriorityQueue[T, R]) AddAll(items []Item[T]) EnqueuedResultGroupJ
 		}
 
 		q.w.Metrics().incSubmitted()
-		j.changeStatus(queued)
 		q.w.notifyToPullNextJobs()
 	}
 
@@ -149,6 +151,8 @@ func newErrorPriorityQueue[T any](w *worker[T, iErrorJob[T]], pq IPriorityQueue)
 
 func (q *errorPriorityQueue[T]) Add(data T, priority int, configs ...JobConfigFunc) (EnqueuedErrJob, bool) {
 	j := newErrorJob(data, loadJobConfigs(q.w.configs(), configs...))
+	// queued before it becomes visible: a fast worker may finish the job before Enqueue returns
+	j.changeStatus(queued)
 
 	if ok := q.internalQueue.Enqueue(j, priority); !ok {
 		j.Close()
@@ -156,7 +160,6 @@ func (q *errorPriorityQueue[T]) Add(data T, priority int, configs ...JobConfigFu
 	}
 
 	q.w.Metrics().incSubmitted()
-	j.changeStatus(queued)
 	q.w.notifyToPullNextJobs()
 
 	return j, true
@@ -167,6 +170,7 @@ func (q *errorPriorityQueue[T]) AddAll(items []Item[T]) EnqueuedErrGroupJob {
 
 	for _, item := range items {
 		j := groupJob.newJob(item.Data, loadJobConfigs(q.w.configs(), WithJobId(item.ID)))
+		j.changeStatus(queued)
 
 		if ok := q.internalQueue.Enqueue(j, item.Priority); !ok {
 			j.Close()
@@ -174,7 +178,6 @@ func (q *errorPriorityQueue[T]) AddAll(items []Item[T]) EnqueuedErrGroupJob {
 		}
 
 		q.w.Metrics().incSubmitted()
-		j.changeStatus(queued)
 		q.w.notifyToPullNextJobs()
 	}
 
